@@ -28,13 +28,22 @@ def worker(calls, hashseed=None, cache=True, timeout=900):
 
 
 def canon_text(t: str):
-    """timestamp dropped; the part before the amplitude lines as a sorted multiset of lines (mutually independent
-    declarations may come in any order), the amplitude part exactly"""
+    """timestamp dropped; the part before the amplitude lines as a sorted multiset of STATEMENTS (mutually independent
+    declarations may come in any order, but a declaration spanning several lines - an array with its entries - is one unit),
+    the amplitude part exactly"""
+    from .progtie import cut_cpp, cut_py
+
     lines = [l for l in t.split("\n") if not l.startswith("Generated on")]
-    for marker in ("    // Lines", "# Lines"):
+    for marker, py in (("    // Lines", False), ("# Lines", True)):
         if marker in lines:
             k = lines.index(marker)
-            return [sorted(lines[:k]), lines[k:]]
+            head = "\n".join(lines[:k])
+            try:
+                units = (cut_py if py else cut_cpp)(head)
+            except Exception:
+                units = lines[:k]
+            comments = [l for l in lines[:k] if l.strip().startswith(("//", "#")) or l.strip().startswith("/*")]
+            return [sorted(units) + sorted(comments), lines[k:]]
     return [sorted(lines), []]
 
 
@@ -135,8 +144,18 @@ def run(ctx):
         res.case(canon_json(case["calls"]), case["calls"] if len(res.samples) < 4 else None)
         res.count("histories")
     # hash seeds: same canonical output whatever the seed; exactly the same text under the same seed
-    seeds = list(range(3)) if tier == "quick" else list(range(32))
-    target = [["cpp", pool[0]], ["py", pool[0]]]
+    seeds = list(range(4)) if tier == "quick" else list(range(32))
+    # a file with three spline resonances and the K-matrix family: several multi-line declarations whose order could follow the seed
+    hdoc = [["event_type", ["D0", "K-", "pi+", "pi+", "pi-"]]]
+    for r3 in ("K(1)(1270)bar-", "K(1460)bar-"):
+        r2, b = A.CASCADE[r3][0]
+        hdoc.append(["line", ["D", "D0", None, None, [["D", r3, None, "GSpline.EFF", [A.two_body(rng, r2), ["D", b, None, None, []]]],
+                                                      ["D", A.BACHELOR[r3], None, None, []]]]] + A.coupling(rng))
+    hdoc.append(["line", ["D", "D0", None, None, [A.two_body(rng, "K*(892)bar0"), A.two_body(rng, "PiPi00")]]] + A.coupling(rng))
+    hdoc += A.required_families(hdoc, rng)
+    hpath = os.path.join(tmp, "hashseed.txt")
+    open(hpath, "w").write(A.render_amp(hdoc))
+    target = [["cpp", hpath], ["py", hpath], ["cpp", pool[0]], ["py", pool[0]]]
     with ThreadPoolExecutor(max_workers=12) as ex:
         by_seed = list(ex.map(lambda s: worker(target, hashseed=s), seeds + [seeds[0]]))
     base = [canon_result(k, r) for (k, _), r in zip(target, by_seed[0])]
@@ -145,7 +164,8 @@ def run(ctx):
         res.count("hash_seeds")
         got = [canon_result(k, r) for (k, _), r in zip(target, out)]
         if got != base:
-            res.violation("the output depends on the interpreter's hash seed", {"kind": "hashseed", "seed": s, "file": open(pool[0]).read()[:800]}, clause="hash seed")
+            k = next((i for i, (x, y) in enumerate(zip(got, base)) if x != y), 0)
+            res.violation("the output depends on the interpreter's hash seed", {"kind": "hashseed", "seed": s, "call": target[k][0], "file": open(target[k][1]).read()[:1500]}, clause="hash seed")
     a, b = by_seed[0], by_seed[-1]
     for (k, _), x, y in zip(target, a, b):
         if x[0] == "ok" and y[0] == "ok" and exact_text(x[1]) != exact_text(y[1]):
